@@ -136,6 +136,14 @@ fn alloc_aligned<T: 'static, A: ArenaX>(
   }
 }
 
+/// request size: "nx" (exact decimal string, for values TLC cannot hold) overrides "n"
+fn req_size(op: &Value) -> u32 {
+  match op.get("nx").and_then(|v| v.as_str()) {
+    Some(s) => s.parse::<u64>().unwrap() as u32,
+    None => op["n"].as_u64().unwrap() as u32,
+  }
+}
+
 pub trait Driven {
   fn live_ids(&self) -> Vec<u32>;
   fn describe(&mut self, cfg: &Value) -> Value;
@@ -248,7 +256,7 @@ impl<A: ArenaX> Inst<A> {
     let mut extra = json!({});
     let res = match k {
       "ab" => {
-        let n = op["n"].as_u64().unwrap() as u32;
+        let n = req_size(op);
         let r = if owned {
           a.alloc_bytes_owned(n).map(|h| Box::new(h) as Box<dyn AnyHandle>)
         } else {
@@ -279,7 +287,7 @@ impl<A: ArenaX> Inst<A> {
       "aa" => {
         let s = op["s"].as_u64().unwrap();
         let al = op["a"].as_u64().unwrap();
-        let n = op["n"].as_u64().unwrap() as u32;
+        let n = req_size(op);
         let r = with_type!(s, al, alloc_aligned, A, a, n, owned).expect("type not in menu");
         match r {
           Ok(h) => {
@@ -356,6 +364,8 @@ impl<A: ArenaX> Inst<A> {
         let inv = self.invalidate_above(0);
         // zero-sized handles are harmless; drop them too
         self.handles.clear();
+        // no handle survives clear(): handle numbering restarts, as on a fresh arena
+        self.next_id = 1;
         extra = json!({"invalidated": inv});
         match unsafe { a.clear() } {
           Ok(()) => json!({"k": "ok"}),
